@@ -504,8 +504,13 @@ pub fn snapshot(sim: &Sim) -> String {
             };
             let mut af: Vec<usize> = p.awaiting_failed.keys().copied().collect();
             af.sort();
+            // variant `selectWaits`: SelectState.unanswered, read from the Debug form (absent at HEAD)
+            let un = match (&p.select_state, SHOW_UNANSWERED.load(std::sync::atomic::Ordering::Relaxed)) {
+                (Some(st), true) => format!(" un={}", show_nats(&unanswered_of(&format!("{st:?}")).unwrap_or_default())),
+                _ => String::new(),
+            };
             procs.push(format!(
-                "P{pid}:{class} mb=[{}] aw=[{}] af={} sel={} res={res}",
+                "P{pid}:{class} mb=[{}] aw=[{}] af={} sel={}{un} res={res}",
                 mb.join(""),
                 aw.iter().map(|x| x.1.clone()).collect::<Vec<_>>().join(";"),
                 show_nats(&af),
@@ -771,6 +776,17 @@ impl<'a> Lock<'a> {
                     self.oracle_failures.push((self.steps, "lost-wakeup-select-never-started".into(), msg));
                     continue;
                 }
+                // variant `selectWaits`: while targets are unanswered the select evaluates nothing; at
+                // quiescence no answer is on its way any more
+                if let Some(un) = unanswered_of(&format!("{st:?}"))
+                    && !un.is_empty()
+                {
+                    let msg = format!(
+                        "process {pid} on worker {i} is parked in a select whose await has not been answered for {un:?} and the system is quiescent: the answer is lost"
+                    );
+                    self.oracle_failures.push((self.steps, "await-unanswered-at-quiescence".into(), msg));
+                    continue;
+                }
                 for s in &st.sources {
                     let ready = match s {
                         Value::Process(t, _) => {
@@ -925,6 +941,37 @@ pub fn start(sc: &Scenario, n: usize, quantum: Option<usize>) -> Result<(Sim, u6
     }
 }
 
+/// set by `configure_model` when the runtime has `SelectState.unanswered` (variant `selectWaits`)
+pub static SHOW_UNANSWERED: std::sync::atomic::AtomicBool = std::sync::atomic::AtomicBool::new(false);
+
+/// `unanswered: [..]` of a `SelectState` Debug form (None when the field does not exist)
+pub fn unanswered_of(debug: &str) -> Option<Vec<usize>> {
+    let i = debug.find("unanswered: [")?;
+    let rest = &debug[i + "unanswered: [".len()..];
+    let j = rest.find(']')?;
+    Some(rest[..j].split(',').filter_map(|x| x.trim().parse().ok()).collect())
+}
+
+/// Does a select with process sources wait for its await answer (`SelectState.unanswered`)?
+/// Probed on a main process parked in `! [child]` whose child never finishes.
+pub fn detect_select_waits() -> bool {
+    let sc = Scenario {
+        kind: "probe".into(),
+        scripts: vec![vec![Act::Spawn { f: 1, pass: vec![] }, Act::Select(vec![Src::Proc(1)])], vec![Act::Select(vec![Src::Recv])]],
+        terminates: false,
+        confluent: true,
+    };
+    let mut sim = Sim::new(1, None, qverif::run::builtins(), false).with_repl(HashMap::new());
+    let Ok(Some(_req)) = sim.submit(&sc.source()) else { return false };
+    sim.run_fair(50, |_| false);
+    sim.workers.iter().any(|w| {
+        let ex = w.verif_executor();
+        ex.verif_process_ids().iter().any(|pid| {
+            ex.get_process(*pid).and_then(|p| p.select_state.as_ref().map(|st| unanswered_of(&format!("{st:?}")).is_some())).unwrap_or(false)
+        })
+    })
+}
+
 /// `Event::ProcessExited { process_id }` by its Debug form (None for every other event)
 pub fn exited_pid(e: &Event<qverif::sim::E>) -> Option<usize> {
     if matches!(
@@ -961,6 +1008,12 @@ pub fn configure_model(model: &mut Model) -> Vec<String> {
         let ans = model.ask("(cfg exit-reports on)");
         assert_eq!(ans, "ok", "model does not know the variant exit-reports");
         on.push("exit-reports".to_string());
+    }
+    if detect_select_waits() {
+        let ans = model.ask("(cfg select-waits on)");
+        assert_eq!(ans, "ok", "model does not know the variant select-waits");
+        SHOW_UNANSWERED.store(true, std::sync::atomic::Ordering::Relaxed);
+        on.push("select-waits".to_string());
     }
     on
 }
